@@ -101,8 +101,9 @@ def cases(tier, seed, flavour):
         for tc in 'dz':
             for (m, n) in _sparse_shapes(tier, flavour):
                 tot = 3 ** (m * n)
-                for lo in range(0, tot, 729):
-                    yield {'part': 'sparse', 'tc': tc, 'm': m, 'n': n, 'lo': lo, 'hi': min(tot, lo + 729), 'seed': s}
+                chunk = 729 if flavour != 'asan' else 81       # asan: ~5 ms per evaluation, keep cases short
+                for lo in range(0, tot, chunk):
+                    yield {'part': 'sparse', 'tc': tc, 'm': m, 'n': n, 'lo': lo, 'hi': min(tot, lo + chunk), 'seed': s}
     for code in ARRAY_CODES:
         yield {'part': 'imp-array', 'code': code}
     for fmt in MV_FORMATS:
